@@ -91,6 +91,8 @@ def rule_start_value(ctx, facts, prefix="C01-R3"):
                 from_scan = True
             elif o == ("param", 1):
                 from_lock = True
+            elif o[0] == "const" and dict(o[1]).get("unit"):
+                continue   # a unit variant such as `None` carries no number
             else:
                 bad.append(o[0] if o[0] != "const" else "const %s" % dict(o[1]).get("int"))
         ctx.check(not bad, prefix, "start-foreign", "the counter's start value comes only from the lock value or the scanning pass (foreign sources: %s)" % (bad or "none"), c.where())
@@ -132,6 +134,9 @@ def _field_loads(body, op, seen=None, depth=0):
     for (bb, kind, d) in body.defs.get(p["l"], []):
         if kind == "assign" and d["rv"]["k"] == "use":
             out |= _field_loads(body, d["rv"]["op"], seen, depth + 1)
+        elif kind == "assign" and d["rv"]["k"] == "agg" and d["rv"].get("agg") == "adt" and d["rv"].get("adt", "").split("::")[-1] in ("Option", "Result"):
+            for o2 in d["rv"]["ops"]:
+                out |= _field_loads(body, o2, seen, depth + 1)
     return out
 
 
@@ -465,6 +470,8 @@ def run(ctx):
     rule_scan_reduce(ctx, facts)
     rule_checked_arithmetic(ctx, facts)
     rule_same_inputs(ctx, facts)
+    from .finder import rule_parse_complete
+    rule_parse_complete(ctx, facts, "C01-R7")
     ctx.assume("the lock, when used, is ahead of every ID in the tree (statement's precondition)")
     ctx.assume("files do not change between the scanning pass and the insertion pass of one run")
     return {
